@@ -3,7 +3,7 @@
    (lexer -> token stream -> parser -> transforms), proofs in proofs/CostExamples.v. *)
 From Coq Require Import List NArith Bool Arith.
 Import ListNotations.
-From PV Require Import Regex Base LexTables NodeModel ParserBase ParserDecl ParserMain Api CostExamples UnicodeTables PyRepr Lexer LexerProofs BinaryRefine.
+From PV Require Import Regex Base LexTables NodeModel ParserBase ParserDecl ParserMain Api CostExamples UnicodeTables PyRepr Lexer LexerProofs BinaryRefine StreamLib RoundTrip RoundTripGen RoundTripX.
 
 (* witness of exponential growth: nesting depth 1 *)
 Theorem C16_complit_1 :
@@ -68,3 +68,21 @@ Theorem C16_binary_expression_cost : forall (P: Type) f lhs0 s t s',
   exists l n, SeqT P s l n s' /\ Z.of_N (ticks P s') = (Z.of_N (ticks P s) + Z.of_nat (length l) + n)%Z.
 Proof. exact binary_expression_cost. Qed.
 Print Assumptions C16_binary_expression_cost.
+
+(* the whole expression parser is linear on everything the generator prints for the expression language [ex]
+   (identifiers, constants, unary / binary / conditional / assignment / comma operators, ++ / --, sizeof e,
+   subscripts, member accesses, calls, parentheses as the generator places them), of ANY size and nesting depth:
+   whenever the whole-parser model finds the tokens [le] of such an expression followed by a token that cannot
+   continue it, p_expression returns, has consumed exactly these |le| tokens (idx) and has called
+   _TokenStream.next() at most 3 |le| times (ticks), the speculative "( type-name )" attempts included: a token
+   is re-read at most twice.  (Casts and compound literals are outside [ex]: see the C16_complit_* witnesses.) *)
+Theorem C16_generated_expression_linear : forall (P: Type) rp (e: ex), wf e ->
+  forall (s: ParserBase.pstate P) le stop l0, Spell P le (xt rp e) -> Up P s (le ++ stop :: l0) -> estop (tk stop) = true ->
+  exists f0 N s', (forall f, (f0 <= f)%nat -> p_expression P f s = Ok (N, s')) /\ Up P s' (stop :: l0) /\
+    idx P s' = (idx P s + length le)%nat /\ (N.to_nat (ticks P s') <= N.to_nat (ticks P s) + 3 * length le)%nat.
+Proof.
+  intros P rp e Hw s le stop l0 HS HU Hst.
+  destruct (parse_of_generated_expression_cost P rp e Hw s le stop l0 HS HU Hst) as [f0 [N [s' [H [HU' [_ [Hi Ht]]]]]]].
+  exists f0, N, s'. split; [exact H|split; [exact HU'|split; [exact Hi|exact Ht]]].
+Qed.
+Print Assumptions C16_generated_expression_linear.
